@@ -423,6 +423,28 @@ PROPS['C04'] = dict(
 )
 
 
+PROPS['C18'] = dict(
+    level='other',
+    level_text=('MINIMAL SCOPE: unbounded proof (Verus/Z3) of the one function every virtual-key operation goes through, handle_fakekey_action (src/kanata/mod.rs, cut whole): '
+                'press queues a press of the virtual key\'s coordinate, release a release, tap both with the press first, toggle a release if a state exists at the coordinate and a press otherwise. '
+                'NOT decided: the timed forms (hold-for-duration: insert-or-rearm and countdown; on-idle: fires once after the idle time) - hash-map entry/retain with closures inside Kanata methods -, '
+                'that the four sources (key, macro, sequence, TCP) all call this function, that toggle ALTERNATES over a history (it does iff a press creates and a release removes a state at the coordinate: Layout, see C04), '
+                'and what the queued events then do.'),
+    level_note='Trusted: rustc, Verus+Z3, extractor. Assumed: Layout::event appends to the queue (logged stub); states_has_coord (`.iter().any(closure)`) decides "a state exists at the coordinate". Everything timed in C18 is outside.',
+    technique='contract-based deductive verification (Verus) of one dispatcher function against a ghost event log',
+    design_ref='DESIGN.md section 9.1b (C18)',
+    explanation='Unit vkeys: handle_fakekey_action appends exactly [Press] / [Release] / [Press, Release] / [held ? Release : Press] for the coordinate (x, y) to the layout event log.',
+    verus=[dict(unit='vkeys')],
+    kani=[],
+    assumptions=[
+        'NOT decided: FakeKeyHoldForDuration (vkeys_pending_release entry().and_modify().or_insert_with(closure)), tick_held_vkeys (HashMap::retain with a closure that calls layout.event), FakeKeyOnIdle / tick_idle_timeout (retain closure), ticks_since_idle bookkeeping',
+        'NOT decided: call sites (custom action handler, macro / sequence activation, tcp_server) and Layout::event / dequeue / do_action for row-1 coordinates',
+        'states_has_coord is an assumed stub (closure in Iterator::any)',
+    ],
+    trusted_base=['rustc', 'Verus 0.2026.09.13 / Z3', 'extractor lib/rustcut.py + lib/verusgen.py'],
+)
+
+
 def find_harness(name):
     for p in PROPS.values():
         for h in p.get('kani', []):
